@@ -535,7 +535,9 @@ class Input(object):
             sig_hash = transaction_hash
             if transaction_hashes and sig.hash_type in transaction_hashes:
                 sig_hash = transaction_hashes[sig.hash_type]
-            if verify(sig_hash, sig, key):
+            # Try on a copy: a failed attempt must not leave this key attached to the signature
+            if verify(sig_hash, deepcopy(sig), key):
+                sig.public_key = key
                 sigs_verified += 1
                 sig_n += 1
             key_n += 1
